@@ -9,3 +9,37 @@ LEVEL_TEXT = ("Complete enumeration of the statement's finite domain (every buil
               "of spans) with run-time contracts on the real Future/FutureChain objects against an independent weekday oracle; the SMT "
               "kernel of the expiry arithmetic is reported separately in the evidence.")
 EXPLANATION = LEVEL_TEXT
+
+import ast, z3
+from pyvc import front, lemma
+
+
+def lemma_vx_arithmetic(tier):
+    """SMT kernel, unbounded in the year: the day arithmetic of VX._get_expiry_date, for every weekday w of the 1st of the following
+    month and every month length L"""
+    w, L, d = z3.Ints("w L d")
+    hyp = [0 <= w, w <= 6, 28 <= L, L <= 31, d == 21 - (w + 2) % 7]
+    out = [
+        lemma.prove("C19::lemma::vx_plus_32_days_lands_in_next_month", hyp, z3.And(1 + 32 - L >= 2, 1 + 32 - L <= 5)),
+        lemma.prove("C19::lemma::vx_day_is_third_friday", hyp, z3.And(15 <= d, d <= 21, (w + d - 1) % 7 == 4),
+                    detail="weekday Monday=0: day d of a month whose 1st has weekday w has weekday (w+d-1)%7; Friday=4; the third Friday lies in 15..21"),
+        lemma.prove("C19::lemma::vx_30_days_before_a_friday_is_a_wednesday", [], (4 - 30) % 7 == 2),
+    ]
+    rel = "tradingenv/contracts.py"
+    fn = front.strip(front.find(rel, "VX._get_expiry_date"))
+    src = ast.unparse(fn)
+    ok = all(x in src for x in ("timedelta(days=32)", "21 - (calendar.weekday(next_month.year, next_month.month, 1) + 2) % 7", "timedelta(days=30)"))
+    out.append(lemma.check("C19::lemma::vx_code_uses_this_arithmetic", ok, "VX._get_expiry_date: +32 days, 21 - (weekday(1st)+2)%7, -30 days (read from the AST)"))
+    for cls, idx, nm in (("ES", 2, "third"), ("NK", 1, "second")):
+        f = front.strip(front.find(rel, cls + "._get_expiry_date"))
+        s_ = ast.unparse(f)
+        out.append(lemma.check("C19::lemma::%s_picks_the_%s_friday" % (cls.lower(), nm),
+                               "dates['Friday'][%d]" % idx in s_ and "range(1, nr_days + 1)" in s_ and "strftime('%A')" in s_,
+                               "%s._get_expiry_date collects the month's days by weekday name and returns Fridays[%d]" % (cls, idx)))
+    k, first = z3.Ints("k first")
+    out.append(lemma.prove("C19::lemma::month_has_at_least_four_fridays", [1 <= first, first <= 7, 1 <= k, k <= 4], first + 7 * (k - 1) <= 28,
+                           detail="the k-th Friday (k <= 4) exists in every month (>= 28 days): index [2] / [1] is always in range"))
+    return out
+
+
+LEMMAS = [lemma_vx_arithmetic]
